@@ -523,6 +523,9 @@ theorem source_constants_ok :
     Gen.Registry.nwSplits = [['\t'], [' ']] ∧
     Gen.Registry.wrapWidth = 76 ∧ Gen.Registry.wrapPrefixExtra = 2 ∧ Gen.Registry.wrapMinWidth = 1 ∧
     Gen.Registry.wrapBreakLongWords = false ∧ Gen.Registry.wrapBreakOnHyphens = false ∧
+    Gen.Registry.chanTypes = ['#', '&', '!'] ∧ Gen.Registry.chanLen = 50 ∧
+    Gen.Registry.isChannelSrc =
+      "s and ',' not in s and ('\\x07' not in s) and (s[0] in chantypes) and (len(s) <= channellen) and (s.split() == [s])" ∧
     Gen.Registry.needsQuotingSrc =
       "any([x not in self._printable for x in s]) and s.strip() != s or (len(s) > 0 and s[0] == s[-1] and (s[0] in '\\'\"'))" := by
   decide +kernel
